@@ -94,6 +94,22 @@ CHECKS = {
         "Trusts vp/evalref.py and Python's sqlite3; LIKE case sensitivity and the datetime storage format are stated preconditions.",
         "DESIGN.md §6 C01",
     ),
+    "C02": (
+        "Hypothesis typed-grammar generation of filters x adversarial rows, executed through the Django ORM on SQLite; differential oracle against the reference evaluator",
+        "As C01 for the Django fragment: generated filters and rows go through apply_odata_query on an in-memory "
+        "SQLite database created with the schema editor; returned ids are compared row by row with the reference "
+        "evaluator on decided rows; refusals and foreign exceptions on fragment filters are violations.",
+        "Trusts vp/evalref.py; SQLite is the only engine; bare boolean columns as predicates are outside the Django fragment (the backend refuses them on purpose).",
+        "DESIGN.md §6 C02",
+    ),
+    "C03": (
+        "Hypothesis typed-grammar generation with randomised keyword case x rows x three entry styles on SQLite; reference evaluator + mutual agreement + metamorphic (keyword case) oracle",
+        "Each generated filter is applied through select(Model), session.query(Model) and select(table), in canonical "
+        "and case-randomised spelling; every result is compared with the reference evaluator on decided rows, the "
+        "three styles with each other on all rows, and the two spellings with each other.",
+        "Trusts vp/evalref.py and the SQLite shims for strpos/concat/floor/ceil/regexp (documented meaning, no OData knowledge).",
+        "DESIGN.md §6 C03",
+    ),
 }
 
 ALL = ["C%02d" % i for i in range(1, 21)]
